@@ -963,6 +963,10 @@ class Transpiler(object):
         if tag_name in MATHML_NARY_RELATIONS:
             return self._get_nary_relation_callback(handler)
 
+        # Some MathML operators take exactly one operand but Sympy classes accept more (log has an optional base)
+        if tag_name in MATHML_UNARY_OPERATORS:
+            return lambda operand: handler(operand)
+
         return handler
 
     def _is_bool(self, expr):
@@ -1030,3 +1034,6 @@ SIMPLE_MATHML_TO_SYMPY_CLASSES = _SIMPLE_MATHML_TO_SYMPY_CLASSES.copy()
 
 # MathML relation elements that are n-ary operators
 MATHML_NARY_RELATIONS = {'eq', 'leq', 'lt', 'geq', 'gt'}
+
+# MathML elements that are unary operators, mapped to Sympy classes that would accept more arguments
+MATHML_UNARY_OPERATORS = {'ln'}
